@@ -66,3 +66,41 @@ pub const RUNS: [usize; 16] = [0, 1, 2, 7, 15, 16, 17, 31, 32, 33, 47, 48, 63, 6
 pub fn encoder_families() -> Vec<&'static Encoding> {
     vec![BIG5, EUC_KR, SHIFT_JIS, EUC_JP, GB18030, GBK, ISO_2022_JP, UTF_8, WINDOWS_1252, KOI8_U, X_USER_DEFINED, UTF_16LE, WINDOWS_1255]
 }
+
+/// Script ranges the legacy encoders treat in separate arms (kana, ideographs, hangul, compatibility,
+/// full-/half-width forms, PUA, astral ...). For each range and each encoder the model tells which
+/// scalars are mappable, so every encoder gets a mappable AND an unmappable representative per arm.
+pub const SCRIPT_RANGES: [(u32, u32); 24] = [(0x80, 0xFF), (0x100, 0x24F), (0x370, 0x3FF), (0x400, 0x4FF), (0x590, 0x6FF), (0xE00, 0xE7F), (0x2000, 0x206F), (0x2100, 0x22FF),
+    (0x2460, 0x27BF), (0x3000, 0x303F), (0x3040, 0x309F), (0x30A0, 0x30FF), (0x3100, 0x33FF), (0x4E00, 0x9FFF), (0xAC00, 0xD7A3), (0xE000, 0xF8FF), (0xF900, 0xFAFF), (0xFE30, 0xFE6F),
+    (0xFF00, 0xFF60), (0xFF61, 0xFF9F), (0xFFA0, 0xFFEF), (0x10000, 0x1FFFF), (0x20000, 0x2FFFF), (0x30000, 0x10FFFF)];
+fn mappable(oe: &'static Encoding, c: u32) -> bool { !crate::model::M.encode(oe.name(), &[c]).iter().any(|i| matches!(i, crate::model::EItem::U(_))) }
+/// per-encoder class-representative scalar alphabet (wide): specials + first/last mappable and first unmappable of every script range
+pub fn encoder_alpha(enc: &'static Encoding) -> Vec<u32> {
+    use std::collections::HashMap; use std::sync::{Mutex, OnceLock};
+    static CACHE: OnceLock<Mutex<HashMap<&'static str, Vec<u32>>>> = OnceLock::new();
+    let oe = enc.output_encoding();
+    let cache = CACHE.get_or_init(|| Mutex::new(HashMap::new()));
+    if let Some(v) = cache.lock().unwrap().get(oe.name()) { return v.clone(); }
+    let mut v: Vec<u32> = vec![0x00, 0x41, 0x3B, 0x5C, 0x7E, 0x0E, 0x1B, 0x80, 0xA5, 0x203E, 0x2212, 0x20AC, 0xE5E5, 0xE7C7, 0xE78D, 0x2550, 0x5341, 0xF780, 0xFFFD, 0x10FFFF];
+    for &(lo, hi) in SCRIPT_RANGES.iter() {
+        let step = if hi - lo > 0x4000 { 7 } else { 1 };
+        let mut first_m = None; let mut last_m = None; let mut first_u = None; let mut mid_u = None;
+        let mut c = lo; while c <= hi { if mappable(oe, c) { if first_m.is_none() { first_m = Some(c); } last_m = Some(c); } else { if first_u.is_none() { first_u = Some(c); } else if first_m.is_some() && mid_u.is_none() { mid_u = Some(c); } } c += step; }
+        for x in [first_m, last_m, first_u, mid_u] { if let Some(x) = x { v.push(x); } }
+    }
+    v.sort(); v.dedup();
+    cache.lock().unwrap().insert(oe.name(), v.clone());
+    v
+}
+/// reduced per-encoder alphabet for history enumerations: base + a mappable and an unmappable scalar of the
+/// ideograph, kana and hangul arms
+pub fn encoder_alpha_small(enc: &'static Encoding, base: &[u32]) -> Vec<u32> {
+    let full = encoder_alpha(enc);
+    let oe = enc.output_encoding();
+    let mut v = base.to_vec();
+    for &(lo, hi) in [(0x4E00u32, 0x9FFFu32), (0x3040, 0x30FF), (0xAC00, 0xD7A3)].iter() {
+        if let Some(m) = full.iter().find(|c| **c >= lo && **c <= hi && mappable(oe, **c)) { v.push(*m); }
+        if let Some(u) = full.iter().find(|c| **c >= lo && **c <= hi && !mappable(oe, **c)) { v.push(*u); }
+    }
+    v.sort(); v.dedup(); v
+}
